@@ -153,6 +153,7 @@ TraceRet ==
        /\ Viol("C08", "recorded", C08_Recorded(C, R))
        /\ Viol("C09", "recorded", C09_Recorded(C, R))
        /\ Viol("C10", "recorded", C10_Recorded(C, R))
+       /\ Viol("C10", "honoured", C10_Honoured(C, R))
        /\ Viol("C11", "options", C11_Options(C, R))
        /\ Viol("C18", "counters", C18_Counters(C, A, R))
        /\ Viol("C18", "intervals", C18_Intervals(C, R))
